@@ -47,6 +47,7 @@ type updateSpec struct {
 	// origin handed to ICUD.Update: "fresh" (Get just before), "snap" (state after the Snap-th event
 	// that touched the record), "otherws" (the record with the same id read in workspace OriginWS)
 	Origin       string     `json:"origin"`
+	OriginVia    int        `json:"origin_via,omitempty"` // fresh origin read by 0 Get, 2 GetSingleton (singleton targets)
 	Snap         int        `json:"snap,omitempty"`
 	OriginWS     uint64     `json:"origin_ws,omitempty"`
 	Puts         []fieldPut `json:"puts,omitempty"`
@@ -70,6 +71,10 @@ type obsSpec struct {
 
 type op struct {
 	Apply   *eventSpec `json:"apply,omitempty"`
+	// More: further events of the same step; the update origins of ALL events of the step are read
+	// first, then Between is read, only then the events are built and applied one after the other
+	More    []*eventSpec `json:"more,omitempty"`
+	Between []obsSpec    `json:"between,omitempty"`
 	Reapply int        `json:"reapply,omitempty"` // 1 = event object from the PLog cache, 2 = restart, read from storage
 	Obs     []obsSpec  `json:"obs,omitempty"`
 	// observed
@@ -108,6 +113,8 @@ type runner struct {
 	tags    map[string]bool
 	applied int
 	updated int
+	held    []heldRec // record objects returned by reads, re-rendered after later traffic
+	stopped bool      // a panic inside the code under test ended the scenario
 	shape   strings.Builder
 }
 
@@ -302,9 +309,136 @@ func (r *runner) get(ws uint64, id istructs.RecordID) (istructs.IRecord, error) 
 	return r.rig.app.Records().Get(istructs.WSID(ws), true, id)
 }
 
-// runApply executes one event through GetNewRawEventBuilder / BuildRawEvent / PutPlog / Apply
-func (r *runner) runApply(o *op) error {
-	ev := o.Apply
+
+type originRead struct {
+	rec     istructs.IRecord
+	term    string // the record as rendered when it was returned by the read
+	stale   bool
+	differs bool // a stale / foreign origin whose content is not what is stored now
+}
+
+type heldRec struct {
+	rec  istructs.IRecord
+	term string // optRecTerm at read time
+}
+
+const junkRec = "(mkRec 0 0 0 0 false [])"
+
+// safeOptRecTerm renders a record; a panic inside the accessors (a record whose payload was
+// clobbered) is rendered as a junk record and tagged
+func (r *runner) safeOptRecTerm(rec istructs.IRecord) (term string) {
+	defer func() {
+		if p := recover(); p != nil {
+			r.tags["panic:render"] = true
+			term = "(Some " + junkRec + ")"
+		}
+	}()
+	return optRecTerm(rec)
+}
+
+func (r *runner) hold(rec istructs.IRecord, term string) {
+	if len(r.held) < 8 {
+		r.held = append(r.held, heldRec{rec, term})
+	}
+}
+
+// recheckHeld renders every held record object again: it must still be what the read returned
+func (r *runner) recheckHeld() {
+	for _, h := range r.held {
+		r.terms = append(r.terms, fmt.Sprintf("SHeld %s %s", h.term, r.safeOptRecTerm(h.rec)))
+	}
+	r.held = nil
+}
+
+// readOrigins reads the records that will be handed to ICUD.Update for one event (fresh origins are
+// observations as well)
+func (r *runner) readOrigins(ev *eventSpec) ([]*originRead, error) {
+	out := make([]*originRead, len(ev.Updates))
+	for i := range ev.Updates {
+		u := &ev.Updates[i]
+		id := r.resolve(u.Target)
+		var origin istructs.IRecord
+		var err error
+		stale := false
+		via := -1
+		switch u.Origin {
+		case "snap":
+			l := r.snaps[wsKey{u.Target.WS, id}]
+			if u.Snap >= 0 && u.Snap < len(l) {
+				origin = l[u.Snap]
+				stale = u.Snap < len(l)-1
+			}
+		case "otherws":
+			origin, err = r.get(u.OriginWS, id)
+			stale = true
+		}
+		if origin == nil {
+			if u.OriginVia == 2 && u.Target.Single != "" {
+				origin, err = r.rig.app.Records().GetSingleton(istructs.WSID(u.Target.WS), qn(u.Target.Single))
+				via = 2
+				r.tags["origin:GetSingleton"] = true
+			} else {
+				origin, err = r.get(u.Target.WS, id)
+				via = 0
+			}
+		}
+		if err != nil {
+			return nil, err
+		}
+		if origin.QName() == appdef.NullQName {
+			continue // nothing to hand to Update (the API takes an existing record)
+		}
+		term := r.safeOptRecTerm(origin)
+		if via >= 0 {
+			r.terms = append(r.terms, fmt.Sprintf("SObs %d %d %d %s", via, u.Target.WS, id, term))
+		}
+		differs := false
+		if stale {
+			if cur, e := r.get(u.Target.WS, id); e == nil {
+				differs = r.safeOptRecTerm(cur) != term
+			}
+		}
+		out[i] = &originRead{origin, strings.TrimSuffix(strings.TrimPrefix(term, "(Some "), ")"), stale, differs}
+	}
+	return out, nil
+}
+
+// runStep: all origins of all events of the step are read first, then the `between` reads, then
+// the events are built and applied in order; finally the held record objects are checked again
+func (r *runner) runStep(o *op) error {
+	evs := append([]*eventSpec{o.Apply}, o.More...)
+	origins := make([][]*originRead, len(evs))
+	for i, ev := range evs {
+		var err error
+		if origins[i], err = r.readOrigins(ev); err != nil {
+			return err
+		}
+	}
+	if len(evs) > 1 {
+		r.tags["origins-read-before-step"] = true
+		r.shape.WriteString("|G")
+	}
+	if len(o.Between) > 0 {
+		b := &op{Obs: o.Between}
+		if err := r.runObs(b); err != nil {
+			return err
+		}
+	}
+	var observed []map[string]any
+	o.Observed = &observed
+	for i, ev := range evs {
+		obs := map[string]any{}
+		observed = append(observed, obs)
+		if err := r.runEvent(ev, origins[i], obs); err != nil {
+			return err
+		}
+	}
+	r.recheckHeld()
+	return nil
+}
+
+// runEvent executes one event through GetNewRawEventBuilder / BuildRawEvent / PutPlog / Apply
+func (r *runner) runEvent(ev *eventSpec, origins []*originRead, obs map[string]any) error {
 	app := r.rig.app
 	r.plogOfs++
 	r.wlogOfs[ev.WS]++
@@ -324,6 +458,7 @@ func (r *runner) runApply(o *op) error {
 		spec                  *updateSpec
 		t                     *typeDef
 		origin                istructs.IRecord
+		originTerm            string
 		id, parent, container uint64
 		active                bool
 		changes               []string
@@ -374,35 +509,20 @@ func (r *runner) runApply(o *op) error {
 		lazies = append(lazies, lazy{w, t, c.Puts, ct.changes})
 		cts = append(cts, ct)
 	}
-	stale := false
+	stale, staleDiffers := false, false
 	for i := range ev.Updates {
 		u := &ev.Updates[i]
-		id := r.resolve(u.Target)
-		var origin istructs.IRecord
-		var err error
-		switch u.Origin {
-		case "snap":
-			l := r.snaps[wsKey{u.Target.WS, id}]
-			if u.Snap >= 0 && u.Snap < len(l) {
-				origin = l[u.Snap]
-				stale = stale || u.Snap < len(l)-1
-			}
-		case "otherws":
-			origin, err = r.get(u.OriginWS, id)
-			stale = true
+		if origins[i] == nil {
+			continue
 		}
-		if origin == nil {
-			origin, err = r.get(u.Target.WS, id)
-		}
-		if err != nil {
-			return err
-		}
-		if origin.QName() == appdef.NullQName {
-			continue // nothing to hand to Update (the API takes an existing record)
-		}
+		origin := origins[i].rec
+		stale = stale || origins[i].stale
+		staleDiffers = staleDiffers || origins[i].differs
+		// the object about to be handed to Update must still be what the read returned
+		r.terms = append(r.terms, fmt.Sprintf("SHeld (Some %s) %s", origins[i].term, r.safeOptRecTerm(origin)))
 		t := typeByName(origin.QName().Entity())
 		w := cud.Update(origin)
-		ut := &uterm{spec: u, t: t, origin: origin, id: uint64(origin.ID()), parent: uint64(origin.Parent()),
+		ut := &uterm{spec: u, t: t, origin: origin, originTerm: origins[i].term, id: uint64(origin.ID()), parent: uint64(origin.Parent()),
 			container: containerIdx(origin.Container()), active: origin.AsBool(appdef.SystemField_IsActive), changes: keeps(len(t.Fields))}
 		if u.Active != nil {
 			w.PutBool(appdef.SystemField_IsActive, *u.Active)
@@ -461,13 +581,11 @@ func (r *runner) runApply(o *op) error {
 				containerIdx(c.Container), coqBool(active), kit.List(ct.changes)))
 		}
 		for _, ut := range uts {
-			us = append(us, fmt.Sprintf("mkUpdate %d %s %d %d %s %s", ut.id, recTerm(ut.origin), ut.parent, ut.container, coqBool(ut.active), kit.List(ut.changes)))
+			us = append(us, fmt.Sprintf("mkUpdate %d %s %d %d %s %s", ut.id, ut.originTerm, ut.parent, ut.container, coqBool(ut.active), kit.List(ut.changes)))
 		}
 		return fmt.Sprintf("(mkEvent %d %s %s)", ev.WS, kit.List(cs), kit.List(us))
 	}
 
-	obs := map[string]any{}
-	o.Observed = obs
 	fmt.Fprintf(&r.shape, "|A%d:c%d:u%d", ev.WS%7, len(cts), len(uts))
 	raw, err := bld.BuildRawEvent()
 	if err != nil {
@@ -507,9 +625,19 @@ func (r *runner) runApply(o *op) error {
 	}
 	r.applied++
 	r.lastOfs = r.plogOfs
+	// the event as the log holds it (decoded by an instance that never saw the object)
+	lt, err := r.loggedTerm(r.lastOfs)
+	if err != nil {
+		return err
+	}
+	r.terms = append(r.terms, "SLogged "+lt)
 	if stale {
 		r.tags["stale-origin"] = true
 		r.shape.WriteString("~")
+	}
+	if staleDiffers {
+		// observed: BuildRawEvent and Apply accepted an update whose origin is not the stored record
+		r.tags["F-C03-1:stale-origin-applied"] = true
 	}
 	newIDs := map[string]uint64{}
 	for _, ct := range cts {
@@ -589,7 +717,39 @@ func (r *runner) runReapply(o *op) error {
 	r.terms = append(r.terms, fmt.Sprintf("SReapply %d %d", o.Reapply, code))
 	r.tags[fmt.Sprintf("reapply:%d", o.Reapply)] = true
 	fmt.Fprintf(&r.shape, "|R%d", o.Reapply)
+	r.recheckHeld()
 	return nil
+}
+
+// loggedTerm renders the stored form of an applied event as a Coq `event` (origins are not logged)
+func (r *runner) loggedTerm(ofs istructs.Offset) (string, error) {
+	ev, err := r.rig.readLogged(1, ofs)
+	if err != nil {
+		return "", err
+	}
+	var cs, us []string
+	ev.CUDs(func(row istructs.ICUDRow) bool {
+		t := typeByName(row.QName().Entity())
+		changes := keeps(len(t.Fields))
+		row.SpecifiedValues(func(f appdef.IField, _ any) bool {
+			for i, fd := range t.Fields {
+				if fd.Name == f.Name() {
+					changes[i] = "SetTo (" + fvalOf(row, fd) + ")"
+				}
+			}
+			return true
+		})
+		parent := uint64(row.AsRecordID(appdef.SystemField_ParentID))
+		cont := containerIdx(row.AsString(appdef.SystemField_Container))
+		active := coqBool(row.AsBool(appdef.SystemField_IsActive))
+		if row.IsNew() {
+			cs = append(cs, fmt.Sprintf("mkCreate %s %d %d %d %d %s %s", coqBool(t.Singleton), row.ID(), typeIdx(row.QName()), parent, cont, active, kit.List(changes)))
+		} else {
+			us = append(us, fmt.Sprintf("mkUpdate %d (mkRec %d %d 0 0 true []) %d %d %s %s", row.ID(), row.ID(), typeIdx(row.QName()), parent, cont, active, kit.List(changes)))
+		}
+		return true
+	})
+	return fmt.Sprintf("(mkEvent %d %s %s)", ev.Workspace(), kit.List(cs), kit.List(us)), nil
 }
 
 func (r *runner) runObs(o *op) error {
@@ -605,8 +765,10 @@ func (r *runner) runObs(o *op) error {
 			if err != nil {
 				return err
 			}
-			r.terms = append(r.terms, fmt.Sprintf("SObs 0 %d %d %s", ws, id, optRecTerm(rec)))
-			seen = append(seen, fmt.Sprintf("get %d/%d: %s", ws, id, optRecTerm(rec)))
+			term := r.safeOptRecTerm(rec)
+			r.terms = append(r.terms, fmt.Sprintf("SObs 0 %d %d %s", ws, id, term))
+			seen = append(seen, fmt.Sprintf("get %d/%d: %s", ws, id, term))
+			r.hold(rec, term)
 			i++
 		case 2:
 			rec, err := r.rig.app.Records().GetSingleton(istructs.WSID(ws), qn(ob.Ref.Single))
@@ -614,8 +776,10 @@ func (r *runner) runObs(o *op) error {
 				return err
 			}
 			id := r.singletonID(ob.Ref.Single)
-			r.terms = append(r.terms, fmt.Sprintf("SObs 2 %d %d %s", ws, id, optRecTerm(rec)))
-			seen = append(seen, fmt.Sprintf("singleton %d/%s: %s", ws, ob.Ref.Single, optRecTerm(rec)))
+			term := r.safeOptRecTerm(rec)
+			r.terms = append(r.terms, fmt.Sprintf("SObs 2 %d %d %s", ws, id, term))
+			seen = append(seen, fmt.Sprintf("singleton %d/%s: %s", ws, ob.Ref.Single, term))
+			r.hold(rec, term)
 			i++
 		default:
 			var batch []istructs.RecordGetBatchItem
@@ -638,10 +802,24 @@ func (r *runner) runObs(o *op) error {
 	return nil
 }
 
-func (r *runner) exec(o *op) error {
+func (r *runner) exec(o *op) (err error) {
+	if r.stopped {
+		return nil
+	}
+	// a panic inside the code under test (e.g. a record whose payload was clobbered) ends the
+	// scenario with a step that neither the model nor the oracle accepts
+	defer func() {
+		if p := recover(); p != nil {
+			r.stopped = true
+			r.tags["panic"] = true
+			r.terms = append(r.terms, "SHeld None (Some "+junkRec+")")
+			o.Observed = map[string]any{"panic": fmt.Sprint(p)}
+			err = nil
+		}
+	}()
 	switch {
 	case o.Apply != nil:
-		return r.runApply(o)
+		return r.runStep(o)
 	case o.Reapply != 0:
 		return r.runReapply(o)
 	default:
